@@ -10,7 +10,7 @@ Appends one line to mutants/results.tsv.  /repo is always restored
 import os, subprocess, sys, time
 REPO = "/repo"
 VERIF = os.path.dirname(os.path.dirname(os.path.abspath(__file__)))
-env = dict(os.environ, GOFLAGS="-mod=mod", GOPROXY="off", GOSUMDB="off", GOTOOLCHAIN="local")
+env = dict(os.environ, VERIF_EVIDENCE_DIR="/tmp/mut-evidence", VERIF_REPLAY_DIR="/tmp/mut-replays", GOFLAGS="-mod=mod", GOPROXY="off", GOSUMDB="off", GOTOOLCHAIN="local")
 
 def sh(cmd, **kw):
     return subprocess.run(cmd, shell=True, env=env, stdout=subprocess.PIPE, stderr=subprocess.STDOUT, text=True, **kw)
@@ -52,7 +52,7 @@ def main():
     finally:
         sh("git -C /repo checkout -- . ")
         # remove replays created by the mutant run
-        sh("cd %s && git clean -fdq replays" % VERIF)
+        sh("rm -rf /tmp/mut-replays")
     return 0
 
 sys.exit(main())
